@@ -213,7 +213,8 @@ def binop(op, l, r):
                         mv >>= 1
                         bit += 1
                     return wrap_int(total)
-            raise E.Unsupported('symbolic & symbolic')
+            from . import specfun
+            return wrap_int(specfun.bitand(a, b))
         if op is ast.BitOr:
             for m, x in ((r, a), (l, b)):
                 if isinstance(m, int) and not isinstance(m, bool):
